@@ -51,7 +51,7 @@ func init() {
 		Run: run,
 		Floors: func(t string) map[string]int64 {
 			m := map[string]int64{"cfg.overlapping": 200, "cfg.b_inside_a": 100, "cfg.b_inside_hole_of_a": 100, "cfg.a_inside_b": 100, "cfg.disjoint_bbox_overlap": 100,
-				"cfg.bbox_disjoint_both_axes": 100, "cfg.bbox_disjoint_one_axis": 100, "cfg.box_corners_inside_concave": 100, "cfg.tiny_next_to_huge": 100, "cfg.empty_operand": 100, "cfg.near_coincident": 150, "scale.1e-13..1e-10": 150, "scale.1e154..1e160": 150, "offset.1e5_sizes": 150, "offset.1e8_sizes": 150, "scale.1e-6..1e15": 150, "points.judged": 100000, "area.identities_checked": 1000, "area.method_compared": 1000, "result.empty_correct": 500, "kind.nested": 50, "presentation.rings_shuffled_into_one_polygon": 300}
+				"cfg.bbox_disjoint_both_axes": 100, "cfg.bbox_disjoint_one_axis": 100, "cfg.box_corners_inside_concave": 100, "cfg.tiny_next_to_huge": 100, "cfg.empty_operand": 100, "cfg.near_coincident": 150, "scale.1e-13..1e-10": 150, "scale.1e154..1e160": 150, "offset.1e5_sizes": 150, "offset.1e8_sizes": 150, "scale.1e-6..1e15": 150, "points.judged": 100000, "area.identities_checked": 1000, "area.method_compared": 1000, "result.empty_correct": 500, "kind.nested": 50, "kind.interlocked": 50, "presentation.rings_shuffled_into_one_polygon": 300}
 			for _, a := range []string{"Polygon", "MultiPolygon", "*Bounds"} {
 				for _, b := range []string{"Polygon", "MultiPolygon", "*Bounds"} {
 					m["pair."+a+"x"+b] = 40
@@ -75,6 +75,7 @@ type Operand struct {
 	Rings [][]exact.P // all rings (open) for membership
 	Area  *big.Rat    // exact area
 	Empty bool        // the empty region, presented as Polygon{}, MultiPolygon{}, MultiPolygon{Polygon{}} and the empty box
+	Isle  gen.Disc    // kind "interlocked": a disc that contains the small member lying in the bay of the large one
 }
 
 func rot(p geom.Path, cx, cy, th float64) geom.Path {
@@ -133,6 +134,20 @@ func GenOperand(r *gen.R, cx, cy, rad float64, kind string, maxVerts int) Operan
 			}
 		}
 		o.Holes = nil
+	case "interlocked":
+		// two hole-free members whose bounding boxes overlap: a U-shaped member and a small one in
+		// its bay (an island in a fjord), the U first half of the time; rotated as a whole
+		s := rad / math.Sqrt2 * 0.98
+		u := geom.Path{{X: cx - s, Y: cy - s}, {X: cx + s, Y: cy - s}, {X: cx + s, Y: cy + s}, {X: cx + s/3, Y: cy + s}, {X: cx + s/3, Y: cy - s/3}, {X: cx - s/3, Y: cy - s/3}, {X: cx - s/3, Y: cy + s}, {X: cx - s, Y: cy + s}}
+		th := r.Range(0, 2*math.Pi)
+		u = rot(u, cx, cy, th)
+		ic := rot(geom.Path{{X: cx, Y: cy + s/3}}, cx, cy, th)[0]
+		isl := gen.StarPolygon(r, ic.X, ic.Y, s*r.Range(0.1, 0.25), r.IntRange(3, 10), 0, 0)
+		o.Polys = []geom.Polygon{{gen.RespellRandom(r, u)}, isl.Poly}
+		if r.Bool() {
+			o.Polys[0], o.Polys[1] = o.Polys[1], o.Polys[0]
+		}
+		o.Isle = gen.Disc{X: ic.X, Y: ic.Y, In: s * 0.25}
 	case "multi":
 		n := r.IntRange(2, 4)
 		cells := r.Perm(4)
@@ -370,7 +385,7 @@ func generalPosition(a, b *Operand, delta float64) bool {
 	return true
 }
 
-var kinds = []string{"star", "star", "starholes", "starholes", "comb", "stair", "multi", "nested", "box", "box"}
+var kinds = []string{"star", "star", "starholes", "starholes", "comb", "stair", "multi", "nested", "interlocked", "box", "box"}
 var configs = []string{"empty_operand", "overlapping", "overlapping", "overlapping", "box_corners_inside_concave", "b_inside_a", "b_inside_hole_of_a", "a_inside_b", "disjoint_bbox_overlap", "bbox_disjoint_both_axes", "bbox_disjoint_one_axis", "tiny_next_to_huge"}
 
 func run(c *core.Ctx, idx int) {
